@@ -28,6 +28,7 @@ import (
 const actorUser = -2000
 
 type lifeProfile struct {
+	resetStep map[types.UID]int // pool -> step of the last tracker reset seen through hook H2
 	e   *Env
 	s   *Sim
 	ch  *Chooser
@@ -717,6 +718,10 @@ func (p *lifeProfile) onHealthEvent(np *nodepoolhealth.State, uid types.UID, op 
 	switch op {
 	case "set:unknown":
 		p.win[uid] = nil
+		if p.resetStep == nil {
+			p.resetStep = map[types.UID]int{}
+		}
+		p.resetStep[uid] = s.step
 		s.Probe("health-reset")
 		return
 	case "set:healthy":
@@ -766,6 +771,12 @@ func (p *lifeProfile) onHealthEvent(np *nodepoolhealth.State, uid types.UID, op 
 	if read == nil || read.UID != uid || patchFaulted {
 		return
 	}
+	// the reconcile evaluates the what-if, patches the condition and only then records the outcome; a reset by the
+	// registration-health controller that lands in between is a race of its own, named separately
+	raced := ""
+	if rs, ok := p.resetStep[uid]; ok && rs >= t.StartSt {
+		raced = "/reset-between-what-if-and-record"
+	}
 	want := modelStatus(after)
 	condOf := func(np *v1.NodePool) string {
 		c := np.StatusConditions().Get(v1.ConditionTypeNodeRegistrationHealthy)
@@ -780,17 +791,17 @@ func (p *lifeProfile) onHealthEvent(np *nodepoolhealth.State, uid types.UID, op 
 	}
 	if success {
 		if want == nodepoolhealth.StatusHealthy && final != "True" {
-			s.Violate("C20", "condition-after-success", "pool %s: success recorded, window %s is healthy, but NodeRegistrationHealthy left at %s", read.Name, winString(after), final)
+			s.Violate("C20", "condition-after-success"+raced, "pool %s: success recorded, window %s is healthy, but NodeRegistrationHealthy left at %s", read.Name, winString(after), final)
 		}
 		if want != nodepoolhealth.StatusHealthy && patched != nil && condOf(patched) == "True" && condOf(read) != "True" {
-			s.Violate("C20", "condition-after-success", "pool %s: success recorded, window %s is still unhealthy, but NodeRegistrationHealthy was set True", read.Name, winString(after))
+			s.Violate("C20", "condition-after-success"+raced, "pool %s: success recorded, window %s is still unhealthy, but NodeRegistrationHealthy was set True", read.Name, winString(after))
 		}
 	} else {
 		if want == nodepoolhealth.StatusUnhealthy && final != "False" {
-			s.Violate("C20", "condition-after-failure", "pool %s: failure recorded, window %s is unhealthy, but NodeRegistrationHealthy left at %s", read.Name, winString(after), final)
+			s.Violate("C20", "condition-after-failure"+raced, "pool %s: failure recorded, window %s is unhealthy, but NodeRegistrationHealthy left at %s", read.Name, winString(after), final)
 		}
 		if want != nodepoolhealth.StatusUnhealthy && patched != nil && condOf(patched) == "False" && condOf(read) != "False" {
-			s.Violate("C20", "condition-after-failure", "pool %s: failure recorded, window %s is not unhealthy, but NodeRegistrationHealthy was set False", read.Name, winString(after))
+			s.Violate("C20", "condition-after-failure"+raced, "pool %s: failure recorded, window %s is not unhealthy, but NodeRegistrationHealthy was set False", read.Name, winString(after))
 		}
 	}
 }
